@@ -1,0 +1,42 @@
+//go:build verif
+
+// Contracts for the acv verifier (/verif). Comment-only file: no executable code.
+
+package keys
+
+// ---- export / import / migrate commands (C18) ----
+// Export mode: private keys only when asked for, everything when asked for, public keys otherwise; the bundle and
+// the access keys go to their two separate files exactly as the exporter produced them.
+//@ func ExportKeysCommand(exporter ExportKeysParams)
+//@   props C18
+//@   noinline *
+//@   at call ExportKeysParams.Export : assert (ret(ExportKeysParams.ExportPrivate)[0] ==> arg[1] == keystore.ExportPrivateKeys) && (!ret(ExportKeysParams.ExportPrivate)[0] && ret(ExportKeysParams.ExportAll)[0] ==> arg[1] == keystore.ExportAllKeys) && (!ret(ExportKeysParams.ExportPrivate)[0] && !ret(ExportKeysParams.ExportAll)[0] ==> arg[1] == keystore.ExportPublicOnly) && sameslice(arg[0], ret(ExportKeysParams.ExportIDs)[0])
+//@   at call WriteExportedData : assert sameslice(arg[0], ret(ExportKeysParams.Export)[0].Data) && sameslice(arg[1], ret(ExportKeysParams.Export)[0].Keys) && arg[2] == exporter
+
+//@ func WriteExportedData(data []byte, keys []byte, params ExportKeysParams) (err error)
+//@   props C18
+//@   safety
+//@   noinline writeFileWithMode
+//@   ensures err == nil ==> called(writeFileWithMode#0) && called(writeFileWithMode#1) && ret(writeFileWithMode#0)[0] == nil && ret(writeFileWithMode#1)[0] == nil
+//@   at call writeFileWithMode#0 : assert sameslice(arg[0], data) && arg[1] == ret(ExportKeysParams.ExportDataFile)[0] && arg[2] == ExportKeyPerm
+//@   at call writeFileWithMode#1 : assert sameslice(arg[0], keys) && arg[1] == ret(ExportKeysParams.ExportKeysFile)[0] && arg[2] == ExportKeyPerm
+
+// The bundle handed to the importer is what the two files contain.
+//@ func ImportKeysCommand(params ImportKeysParams)
+//@   props C18
+//@   noinline *
+//@   at call os.ReadFile#0 : assert arg[0] == ret(ImportKeysParams.ExportDataFile#0)[0]
+//@   at call os.ReadFile#1 : assert arg[0] == ret(ImportKeysParams.ExportKeysFile#0)[0]
+//@   at call ImportKeysParams.Import : assert sameslice(arg[0].Data, ret(os.ReadFile#0)[0]) && sameslice(arg[0].Keys, ret(os.ReadFile#1)[0])
+//@   at call utils.ZeroizeSymmetricKey : assert exiting
+
+// Migration succeeds only if every enumerated key was imported; each key is imported from the same source store.
+//@ func MigrateV1toV2(srcV1 filesystem.KeyExport, dstV2 keystoreV2.KeyFileImportV1) (err error)
+//@   props C18
+//@   safety
+//@   noinline *
+//@   loop 0 invariant 0 <= actual && actual <= $n
+//@          step every-key-offered: itercalled(KeyFileImportV1.ImportKeyFileV1) && argof(KeyFileImportV1.ImportKeyFileV1)[0] == srcV1 && argof(KeyFileImportV1.ImportKeyFileV1)[1] == key
+//@          step counted-iff-imported: (ret(KeyFileImportV1.ImportKeyFileV1)[0] == nil ==> actual == prev(actual) + 1) && (ret(KeyFileImportV1.ImportKeyFileV1)[0] != nil ==> actual == prev(actual))
+//@   ensures enumeration-failure-fails: err == nil ==> ret(filesystem.EnumerateExportedKeys)[1] == nil
+//@   at return : assert err == nil ==> actual == len(keys)
